@@ -20,6 +20,7 @@
 #ifndef THETA_HELPERS_HPP_
 #define THETA_HELPERS_HPP_
 
+#include <algorithm>
 #include <stdexcept>
 #include <string>
 
@@ -57,7 +58,8 @@ public:
   // consistent way of initializing theta from p
   // avoids multiplication if p == 1 since it might not yield MAX_THETA exactly
   static uint64_t starting_theta_from_p(float p) {
-    if (p < 1) return static_cast<uint64_t>(static_cast<double>(theta_constants::MAX_THETA) * p);
+    // never 0: theta == 0 retains nothing AND makes get_estimate() = 0 / 0.0 = NaN (p below 2^-63 is a valid argument)
+    if (p < 1) return std::max<uint64_t>(1, static_cast<uint64_t>(static_cast<double>(theta_constants::MAX_THETA) * p));
     return theta_constants::MAX_THETA;
   }
 
